@@ -325,6 +325,7 @@ def drive (d : D) (ws : List String) : Except String D := do
       check (rc = 0 ∧ live = 0) "destroy behind queued resize: rc / leak"
       pure d
   | ["conc", "done"] => pure d
+  | "note" :: _ => pure d
   | ws => .error s!"unparsable line {ws}"
 
 def main : IO UInt32 := do
